@@ -59,6 +59,7 @@ def explore(fn, assume=(), timeout_ms=20000, max_cases=4096):
 # ---------------------------------------------------------------- structural comparison of outcomes
 def differs(a, b):
     """returns False (structurally identical for all values), True (differ for all values), or a z3 Bool (differ iff ...)"""
+    if (isinstance(a, str) and a == '*') or (isinstance(b, str) and b == '*'): return False       # wildcard
     if isinstance(a, (list, tuple)) and isinstance(b, (list, tuple)):
         if len(a) != len(b): return True
         terms = []
